@@ -35,7 +35,7 @@ def generic_replay(mod, ob: Ob, model: Dict[str, Any], key: Optional[str] = None
     return {"reproduced": reproduced, "detail": detail, "key": k, "mode": "real" if "real" in params else "same"}
 
 
-def twin_of(ob: Ob, timeout: float = 60.0) -> Ob:
+def twin_of(ob: Ob, timeout: float = 300.0) -> Ob:
     """Vacuity twin: same builder and params with twin=True; must come back refuted."""
     p = dict(ob.params)
     p["twin"] = True
